@@ -2173,6 +2173,57 @@ package decimal128
 //@ limit before "inv, res, trunc := decomposed192{"
 //@ props C18 C15 C20
 
+// Pow (C18): PowWithMode under DefaultRoundingMode, clause for clause.
+//@ func Decimal.Pow
+//@ uses rssteps=1,2,3,4,5,6,7,8,9,10,11,12,13,14,15,16,17,18,19,20,21,22,23,24,25,26,27,28,29,30,31,32,33,34,35 rsmono=0,1,20,34,35,36,40
+//@ define DOne = (!special(d) && bexp(d) <= 6176 && bexp(d) > 6176 - 39 && coef(d) == p10(6176 - bexp(d)))
+//@ define OOne = (!special(o) && bexp(o) <= 6176 && bexp(o) > 6176 - 39 && coef(o) == p10(6176 - bexp(o)))
+//@ define OZero = (!special(o) && coef(o) == 0)
+//@ define RisOne = (!special(r) && coef(r) == 1 && bexp(r) == 6176 && !sign(r))
+//@ define RisZero = (!special(r) && coef(r) == 0 && bexp(r) == 0 && !sign(r))
+//@ define RisInf = (isinf(r) && !sign(r) && lo(r) == 0)
+//@ returns (r)
+//@ logical V real, yc int, ye int, xc int, xe int, W real
+//@ requires DefaultRoundingMode <= 5
+//@ define OFin = (!special(o) && coef(o) != 0)
+//@ define DFin = (!special(d) && coef(d) != 0)
+//@ requires OFin ==> yc >= 1 && yc % 10 != 0 && ye >= bexp(o) && ye <= bexp(o) + 38 && coef(o) == yc * p10(ye - bexp(o))
+//@ requires DFin ==> xc >= 1 && xc % 10 != 0 && xe >= bexp(d) && xe <= bexp(d) + 38 && coef(d) == xc * p10(xe - bexp(d))
+//@ define YODD = (ye == 6176 && yc % 2 == 1)
+//@ define LADDER = (!OZero && !(DOne && !sign(d)) && !OOne && !isnan(d) && !isnan(o) && OFin)
+//@ define RZero = (!special(r) && coef(r) == 0 && bexp(r) == 0)
+//@ define RInf = (isinf(r) && lo(r) == 0)
+//@ define POWTEN = (LADDER && DFin && xc == 1 && !sign(o) && ye >= 6176 && !(sign(d) && ye < 6176))
+//@ define EE = ((xe - 6176) * yc * p10(ye - 6176))
+//@ requires POWTEN && ye <= 6183 && yc <= 6111 ==> W > 0 && rs(W, 6176 + EE) == 1
+//@ requires OOne && sign(o) && !special(d) && coef(d) != 0 ==> V > 0 && rs(V, 12352 - bexp(d)) * coef(d) == 1
+//@ ensures OZero ==> RisOne
+//@ ensures !OZero && DOne && (!sign(d) || isinf(o)) ==> RisOne
+//@ ensures !OZero && !(DOne && (!sign(d) || isinf(o))) && OOne && !sign(o) ==> r == d
+//@ ensures !OZero && !(DOne && (!sign(d) || isinf(o))) && OOne && sign(o) && isnan(d) ==> r == d
+//@ ensures !OZero && !(DOne && (!sign(d) || isinf(o))) && OOne && sign(o) && !special(d) && coef(d) != 0 ==> sign(r) == sign(d) && !isnan(r)
+//@    && (isinf(r) ==> Ovf(DefaultRoundingMode, sign(r), rs(V, 12287)))
+//@    && (!special(r) ==> (rs(V, 0) < 0.1 && coef(r) == 0) || (rs(V, 0) >= 0.1 && RndOK(DefaultRoundingMode, sign(r), rs(V, bexp(r)), coef(r), bexp(r))))
+//@ ensures !OZero && !DOne && !OOne && isnan(d) ==> r == d
+//@ ensures !OZero && !DOne && !OOne && !isnan(d) && isnan(o) ==> r == o
+//@ ensures isinf(o) && !special(d) && coef(d) == 0 ==> ite(sign(o), RisInf, RisZero)
+//@ ensures isinf(o) && isinf(d) ==> ite(sign(o), RisZero, RisInf)
+//@ ensures isinf(o) && !special(d) && coef(d) != 0 && cmpmag(coef(d), bexp(d), 1, 6176) == 1 ==> ite(sign(o), RisZero, RisInf)
+//@ ensures isinf(o) && !special(d) && coef(d) != 0 && cmpmag(coef(d), bexp(d), 1, 6176) == 0 - 1 ==> ite(sign(o), RisInf, RisZero)
+//@ ensures LADDER && !special(d) && coef(d) == 0 ==> sign(r) == (sign(d) && YODD) && ite(sign(o), RInf, RZero)
+//@ ensures LADDER && isinf(d) ==> sign(r) == (sign(d) && YODD) && ite(sign(o), RZero, RInf)
+//@ ensures LADDER && DFin && sign(d) && ye < 6176 ==> isnan(r) && !sign(r) && hi(r) == 0x7c00000000000000
+//@    && lo(r) == payloadOpPow + 256*payloadValNegFinite + 65536*ite(sign(o), payloadValNegFinite, payloadValPosFinite)
+//@ ensures POWTEN && xe == 6176 ==> !special(r) && coef(r) == 1 && bexp(r) == 6176 && sign(r) == (sign(d) && YODD)
+//@ ensures POWTEN && xe != 6176 && (ye > 6183 || yc > 6111) ==> sign(r) == (sign(d) && YODD) && ite(xe < 6176, RZero, RInf)
+//@ ensures POWTEN && ye <= 6183 && yc <= 6111 ==> sign(r) == (sign(d) && YODD)
+//@ ensures POWTEN && ye <= 6183 && yc <= 6111 ==> !isnan(r)
+//@ ensures POWTEN && ye <= 6183 && yc <= 6111 && EE > 6145 ==> RInf
+//@ ensures POWTEN && ye <= 6183 && yc <= 6111 && EE < 0 - 6176 ==> !special(r) && bexp(r) == 0 && coef(r) <= 1
+//@ ensures POWTEN && ye <= 6183 && yc <= 6111 && EE >= 0 - 6176 && EE <= 6145 ==> !special(r) && RndOK(DefaultRoundingMode, sign(d), rs(W, bexp(r)), coef(r), bexp(r))
+//@ ensures LADDER && DFin && !sign(d) && xc == 1 && xe % 2 == 0 && yc == 5 && ye == 6175 ==> !special(r) && !sign(r) && coef(r) == 1 && bexp(r) == 6176 + ite(sign(o), 0 - (xe - 6176) / 2, (xe - 6176) / 2)
+//@ props C18 C15 C20
+
 // ---------------------------------------------------------------------------------------------
 // Text parser (C05, C13). The documented number syntax is specified as a finite automaton run
 // over the input: pst(d, n) is the state after the first n bytes, usc(d, n) tells whether an
@@ -2633,3 +2684,56 @@ package decimal128
 //@ loop 3: decreases end - i
 //@ apply before "if i != end-1 {": fst_after_verb(format, i + 1, N)
 //@ props C07 C20
+
+// uint128.or64 (int.go)
+//@ func uint128.or64
+//@ returns (r)
+//@ ensures hi(r) == hi(n) && (lo(n) == 0 ==> lo(r) == o) && (o == 0 ==> lo(r) == lo(n))
+//@ props C10 C20
+
+// ---------------------------------------------------------------------------------------------
+// math/big conversions (C10). *big.Int values are mathematical integers under the trusted model
+// of math/big (cmd/govc/bigmodel.go); *i is the integer a pointer i refers to.
+//@ func FromInt
+//@ uses rssteps=1,18 rsmono=0,1
+//@ returns (r)
+//@ logical V real
+//@ define ABS = ite(*i < 0, 0 - *i, *i)
+//@ requires DefaultRoundingMode <= 5
+//@ requires *i != 0 ==> V > 0 && rs(V, 6176) == real(ite(*i < 0, 0 - *i, *i))
+//@ ensures *old(i) == old(*i)
+//@ ensures old(*i) == 0 ==> !special(r) && coef(r) == 0 && bexp(r) == 0 && !sign(r)
+//@ ensures old(*i) != 0 ==> sign(r) == (old(*i) < 0) && !isnan(r)
+//@ ensures old(*i) != 0 && isinf(r) ==> Ovf(DefaultRoundingMode, sign(r), rs(V, 12287))
+//@ ensures old(*i) != 0 && !special(r) ==> RndOK(DefaultRoundingMode, sign(r), rs(V, bexp(r)), coef(r), bexp(r))
+//@ define BLF = (bl >= 1 && (bl <= 256 ==> ABS < pow2(bl)) && (bl <= 257 ==> ABS >= pow2(bl - 1)) && (bl > 256 ==> ABS >= pow2(256)))
+//@ define COMMON = (*old(i) == old(*i) && old(*i) != 0 && neg == (old(*i) < 0) && (*i < 0) == neg && *i != 0 && exp >= 6176 && exp <= 12287 + 18 && (trunc == 0 || trunc == 1) && *e18 == 1000000000000000000)
+//@ loop 1: invariant COMMON && BLF && bl > 128
+//@ loop 1: invariant TH(rs(V, exp), ABS, trunc)
+//@ loop 1: decreases ABS
+//@ loop 2: invariant *old(i) == old(*i) && old(*i) != 0 && neg == (old(*i) < 0) && (*i < 0) == neg && *i != 0 && exp >= 6176 && exp <= 12287 + 18 && (trunc == 0 || trunc == 1) && *ten == 10 && BLF
+//@ loop 2: invariant TH(rs(V, exp), ABS, trunc)
+//@ loop 2: decreases ABS
+//@ ghost AV int = 0
+//@ ghost before "var sig uint128": AV = ite(*i < 0, 0 - *i, *i)
+//@ assert before "var sig uint128": AV >= 1 && AV < 340282366920938463463374607431768211456 && TH(rs(V, exp), AV, trunc) && (trunc == 0 || trunc == 1) && exp >= 6176 && exp <= 12305 && *old(i) == old(*i) && neg == (old(*i) < 0) && old(*i) != 0
+//@ loop 3: invariant 0 - 1 <= i && i < len(b) && 1 <= len(b) && len(b) <= 2 && (len(b) == 1 ==> AV == b[0]) && (len(b) == 2 ==> AV == b[0] + 18446744073709551616 * b[1])
+//@ loop 3: invariant (i == len(b) - 1 ==> u128(sig) == 0) && (len(b) == 2 && i == 0 ==> u128(sig) == b[1]) && (i == 0 - 1 ==> u128(sig) == AV)
+//@ loop 3: invariant AV >= 1 && AV < 340282366920938463463374607431768211456 && TH(rs(V, exp), AV, trunc) && (trunc == 0 || trunc == 1) && exp >= 6176 && exp <= 12305 && *old(i) == old(*i) && neg == (old(*i) < 0) && old(*i) != 0
+//@ loop 3: decreases i + 1
+//@ call RoundingMode.reduce128#1: V = V
+//@ props C10 C20
+
+// Decimal.Int (C10): the integer part truncated toward zero, delivered in the caller's *big.Int
+// (assumed non-nil in the model; the nil case allocates a fresh zero and takes the same path).
+//@ func Decimal.Int
+//@ returns (res)
+//@ define E = (bexp(d) - 6176)
+//@ define C = coef(d)
+//@ define R = ite(sign(d), 0 - *res, *res)
+//@ panics special(d)
+//@ ensures E >= 0 ==> R == C * pw10(E)
+//@ ensures E < 0 && E >= 0 - 35 ==> R >= 0 && R * pw10(0 - E) <= C && C < (R + 1) * pw10(0 - E)
+//@ ensures E < 0 - 35 ==> *res == 0
+//@ apply before "if exp > 0 {"#2: pw10n_pos(ite(exp > 0, exp, 0 - exp))
+//@ props C10 C20
